@@ -394,6 +394,20 @@ pub fn run(args: &Args) {
 		let coords_near_s = coords_near.iter().map(|c| format!("{},{},{}", c.x, c.y, c.z)).collect::<Vec<_>>().join(";");
 		// the battery of invalid arguments, each alone on a valid source: must be `Err`, never `Ok`, never a panic
 		if wi % 3 == 0 {
+			// near-miss parameter NAMES of every operation (other case, trailing underscore, prefix, next to the correct
+			// name, look-alike letter): a build error, never silently ignored
+			for (i, rpn) in ["L0,Zxk1:n", "L0,Zxk2:n", "L0,Zxk3:n", "L0,Zxk4:n", "L0,Zxk5:n", "L0,Zxk6:n", "L0,Zxk7:n", "L0,Bxk1", "L0,Bxk2", "L0,Bxk3", "L0,Bxk4", "L0,Bxk5", "Dxk1", "Dxk2", "Dxk3", "Dxk4", "Dxk5", "L0,Uxk1", "L0,Uxk2", "L0,Uxk3", "L0,Z1:2,Bxk1", "L0,L0,O2,Zxk1:n"].iter().enumerate() {
+				out.count("near_miss_parameter_names");
+				let built = build_op(&rt, &w, rpn);
+				let (ok, what) = match &built {
+					Ok(Err(_)) => (true, String::new()),
+					Ok(Ok(_)) => (false, "the pipeline builds although a parameter name is misspelled / unknown".to_string()),
+					Err(m) => (false, format!("build panicked: {}", trunc(m, 100))),
+				};
+				out.eval(&format!("C09 name {rpn} {wi} {i}"), true);
+				out.oracle(ok, &format!("C09 near-miss parameter name: {what}"), json!({"kind": "near_miss_name_accepted"}), json!({"case": format!("C09 P {rpn} {}", w.env_string()), "vpl": rpn_to_vpl(rpn)}));
+				run_in_world(&rt, &mut out, &mut id, &w, "C09", "P", rpn, "");
+			}
 			for bad in ["Bx", "Bx0", "Bx1", "Bx5", "Bx8", "Bxr", "Bxt", "Bxn", "Bxs", "Zx:n", "Zxf:n", "Zxn:n", "Zxe:n", "Zn:xf", "Zn:xn", "Z256:n", "Zn:300"] {
 				let rpn = format!("L0,{bad}");
 				out.count("invalid_battery");
